@@ -421,6 +421,31 @@ func gen(out *vc.Out, r *vc.Rand, thorough bool) {
 		}
 	}
 
+	// I. a read-modify-write call (append / remove / TTL touch) beside a plain Set / SetList / Delete of the same key,
+	// every key category and deployment, all interleavings: the plain write must not land between the tier read
+	// and the tier write of the other call
+	rmwKeys := append(append([]string{}, catKeys...), "tunnox:index:conncode:target:k1", "lock:cleanup_task:t1", "tunnox:conn_state:c1")
+	for _, key := range rmwKeys {
+		for _, c := range cfgs {
+			for _, a := range []string{"app:7", "rem:1", "exp:7000000000000"} {
+				val := "L1,2"
+				if strings.HasPrefix(a, "exp") {
+					val = "s1"
+				}
+				for _, in := range inits(key, c.sh, val)[1:] {
+					for _, w := range []string{"set:L5,6:0", "set:s5:0", "del"} {
+						k := &kase{variant: variantFlag, pe: c.pe, sh: c.sh, key: key, init: in, ops: []string{a, w}}
+						explore(out, k, 0, "", limit, "rmw-vs-write")
+						if thorough {
+							k3 := &kase{variant: variantFlag, pe: c.pe, sh: c.sh, key: key, init: in, ops: []string{a, w, "get"}}
+							explore(out, k3, 0, "", limit, "rmw-vs-write-read")
+						}
+					}
+				}
+			}
+		}
+	}
+
 	// F. a cache entry expires / is evicted at any point of the schedule (persisted categories: the cache is
 	// only a cache, nothing may be lost or resurrected)
 	evKeys := []struct {
